@@ -239,7 +239,7 @@ impl CallResultError {
 //@ end
 
 //@ lift crates/air-lib/trace-handler/src/merger/call_merger.rs :: fn merge_call_results
-//@ props C05 C07 C08 C09 C12
+//@ props C05 C06 C07 C08 C09 C12
 //@ ret r
 //@ spec
     ensures
@@ -346,7 +346,7 @@ pub proof fn join_keeps_results(a: CallResult, b: CallResult)
 }
 //@ end
 
-//@ lemma join_keeps_pending_request props C05 C07
+//@ lemma join_keeps_pending_request props C05 C06 C07
 // a pending request (in particular the peer's own PeerIdWithCallId) survives merging with anybody's sent_by,
 // so the call is not requested again
 pub proof fn join_keeps_pending_request(s: Sender, t: Sender)
